@@ -110,6 +110,19 @@ def closed_loop_finalize(ctx, cfg, sol, case, sigp, exact_hit):
             seed = term[j]
         post1 = {"mean": seed[0], "cov": seed[1], "bw": sm.ident_pcond(n)}
         bws = [conds[i][j] for i in range(N - 2, -1, -1)]
+        # cancellation guard: when a stored gain is huge (degenerate reversal, e.g. exactly zero innovation variance) the
+        # backward mean A x + b is the difference of huge numbers and is not determined by the float data
+        amp = 1.0
+        for i, b_ in enumerate(bws):
+            A_, b0_, _Q = sm.den_float(b_)
+            x_ = sm.tofloat(us[N - 1 - i][j][0])
+            num = float(np.max(np.abs(A_) @ np.abs(x_) + np.abs(b0_)))
+            den = float(np.max(np.abs(sm.tofloat(us[N - 2 - i][j][0])))) + float(np.sqrt(np.max(sm.tofloat(np.array([fil[N - 2 - i][j][1][a, a] for a in range(n)], dtype=object)))))
+            if num > 0:
+                amp = max(amp, num / den if den > 0 else float("inf"))
+        if not amp < 1e6:
+            ctx.skip("closed-loop finalisation: stored backward gain amplifies rounding by >= 1e6 (degenerate reversal)")
+            continue
         args = []
         for b in bws:
             args += sm.pc_args(b)
@@ -117,7 +130,12 @@ def closed_loop_finalize(ctx, cfg, sol, case, sigp, exact_hit):
         for i in range(N - 1, -1, -1):
             mm, mc = ans.take(n), ans.take(n, n)
             sv = np.array([fil[i][j][1][a, a] + (fil[i][j][0][a] * Fraction(1, 10**10)) ** 2 + Fraction(1, 10**60) for a in range(n)], dtype=object)
-            dm = sm._dev_vec(us[i][j][0], mm, np.abs(sm.tofloat(mm)) + np.sqrt(sm.tofloat(sv)))
+            # natural magnitude of the summands of the backward mean A x + b (rounding is relative to it)
+            nat = np.zeros(n)
+            if i < N - 1:
+                A_, b0_, _Q = sm.den_float(conds[i][j])
+                nat = np.abs(A_) @ np.abs(sm.tofloat(us[i + 1][j][0])) + np.abs(b0_)
+            dm = sm._dev_vec(us[i][j][0], mm, np.abs(sm.tofloat(mm)) + np.sqrt(sm.tofloat(sv)) + nat)
             dc = sm._dev_cov(us[i][j][1], mc, sv)
             c = dict(case, time_index=i, slice=j)
             ctx.dev("finalize.mean", dm, 1e-8, case=c, sig=f"{sigp}:smoothed-mean", what=f"smoothed mean at index {i} deviates {dm:.2e} from the backward recursion of the stored conditionals")
@@ -296,7 +314,7 @@ def run(ctx):
         if it % 4 == 0:
             import dataclasses
 
-            cfa = dataclasses.replace(cfg, strategy="fixedinterval", q=min(cfg.q, 4), init="exact", damp=0.0)
+            cfa = dataclasses.replace(cfg, strategy="fixedinterval", q=min(cfg.q, 4), init="exact", damp=0.0, constraint_init=False, diffuse=0, prior="iwp")
             fld = problems.random_field(ctx.rng, d, order, max_degree=1, linear=True)
             tol = float(10.0 ** ctx.rng.uniform(-5, -2))
             t1 = t0 + float(gen.pick(ctx.rng, [0.5, 1.0, 0.75]))
